@@ -242,3 +242,38 @@ func verifHarness_C16_invalid() {
 	verifAssert(k == "panic", "a non-pointer or non-struct controller is rejected at registration")
 	verifCover("C16 invalid controller")
 }
+
+// Two resources served by two instances of one controller type (round 14,
+// C16-I): each resource's routes run the methods of the instance it was
+// registered with — on one router and across routers, in either order.
+type verifTagged struct{ tag string }
+
+func (t *verifTagged) Index(c *Context)  { verifC16Trace = append(verifC16Trace, t.tag+":Index") }
+func (t *verifTagged) Show(c *Context)   { verifC16Trace = append(verifC16Trace, t.tag+":Show") }
+func (t *verifTagged) Update(c *Context) { verifC16Trace = append(verifC16Trace, t.tag+":Update") }
+
+func verifHarness_C16_twoInstances() {
+	sameRouter := verifChoice("sameRouter", 2) == 1
+	r1 := New()
+	r2 := r1
+	if !sameRouter {
+		r2 = New()
+	}
+	r1.Resource("/one/", &verifTagged{tag: "one"}) // the resource lives under base + lower-cased type name
+	r2.Resource("/two/", &verifTagged{tag: "two"})
+	which := verifChoice("probe", 2)
+	r, base, tag := r1, "/one/veriftagged", "one"
+	if which == 1 {
+		r, base, tag = r2, "/two/veriftagged", "two"
+	}
+	probes := []struct{ m, p, want string }{
+		{"GET", base, tag + ":Index"}, {"GET", base + "/7", tag + ":Show"},
+		{"PUT", base + "/7", tag + ":Update"}, {"PATCH", base + "/7", tag + ":Update"},
+	}
+	pr := probes[verifChoice("action", 4)]
+	verifC16Trace = nil
+	k := verifCatch(func() { r.ServeHTTP(verifNewWriter(), verifRequest(pr.m, pr.p)) })
+	verifAssert(k == "", "no panic")
+	verifAssert(len(verifC16Trace) == 1 && verifC16Trace[0] == pr.want, "a resource's routes run the methods of the controller instance it was registered with")
+	verifCover("C16 two instances")
+}
